@@ -14,7 +14,7 @@ Definition regids (s : st) : list id := map fst (reg s).
 Definition somes (l : list (option id)) : list id :=
   flat_map (fun x => match x with Some y => [y] | None => [] end) l.
 Definition pids (s : st) : list id := somes (pend s).
-Definition measure (s : st) : nat := nitems s + live_pend s.
+Definition measure (s : st) : nat := phi s.
 Definition done (s : st) (x : id) : Prop := fin_count s x = 1 /\ free_count s x = 1.
 
 Lemma lev_eqb_refl e : lev_eqb e e = true.
@@ -22,6 +22,12 @@ Proof. destruct e; simpl; apply Nat.eqb_refl. Qed.
 
 Lemma count_cons e a l : count e (a :: l) = (if lev_eqb e a then 1 else 0) + count e l.
 Proof. unfold count. simpl. destruct (lev_eqb e a); reflexivity. Qed.
+
+Lemma count_zero_pre e l : existsb (lev_eqb e) l = false -> count e l = 0.
+Proof.
+  unfold count. induction l as [|a l IH]; simpl; auto.
+  destruct (lev_eqb e a); simpl; [discriminate | exact IH].
+Qed.
 
 Lemma fin_add_fin s o x : fin_count (add_log (LFin o) s) x = (if x =? o then 1 else 0) + fin_count s x.
 Proof. unfold fin_count. simpl log. rewrite count_cons. reflexivity. Qed.
@@ -95,26 +101,33 @@ Record GInv (A : list id) (s : st) : Prop := {
   g_fresh : forall x, In x (regids s) \/ In x (pids s) -> fin_count s x = 0;
   g_prog : forall x, In x A -> fin_count s x = 1 /\ free_count s x = 0;
   g_rest : forall x, ~ In x A -> free_count s x = fin_count s x /\ fin_count s x <= 1;
-  g_info : forall x, In x (regids s) \/ In x (pids s) -> info s x <> None
+  g_info : forall x, In x (regids s) \/ In x (pids s) -> info s x <> None;
+  g_alloc : forall x, info s x = None -> fin_count s x = 0;
+  g_ids_nodup : NoDup (ids s);
+  g_ids : forall x, In x (ids s) <-> info s x <> None;
+  g_spawn : forall x, info s x = None -> spawns s x = []
 }.
 
+(* s' extends s: what was allocated stays as it was; objects allocated in between (by destructors)
+   are managed plain objects, registered if the collector runs *)
 Record Ext (s s' : st) : Prop := {
   e_running : running s' = running s;
-  e_info : info s' = info s;
-  e_ids : ids s' = ids s;
+  e_info : forall x, info s x <> None -> info s' x = info s x;
   e_torn : torn s' = torn s;
-  e_bad : bad s' = bad s;
   e_oof : oof s' = oof s;
   e_fin : forall x, fin_count s x <= fin_count s' x;
   e_free : forall x, free_count s x <= free_count s' x;
-  e_reg : incl (reg s') (reg s);
+  e_reg : forall e, In e (reg s') -> In e (reg s) \/ (info s (fst e) = None /\ snd e = false);
   e_pend : Forall2 (fun a b => a = b \/ a = None) (pend s') (pend s);
   e_regdone : forall x, In x (regids s) -> ~ In x (regids s') -> done s' x;
   e_penddone : forall x, In x (pids s) -> ~ In x (pids s') -> done s' x;
   e_done : forall x, done s x -> done s' x;
-  e_meas : measure s' <= measure s;
-  e_src : forall x, fin_count s x = 0 -> 0 < fin_count s' x -> info s x <> None;
-  e_owned : forall y, fin_count s' y = 0 -> owned s' y = owned s y
+  e_owned : forall y, fin_count s' y = 0 -> owned s' y = owned s y;
+  e_spawns : forall x, info s x <> None -> spawns s' x = spawns s x;
+  e_prog_owned : forall y, 0 < fin_count s y -> free_count s' y = 0 -> owned s' y = owned s y;
+  e_new : forall x, info s x = None -> info s' x <> None ->
+            info s' x = Some (KManaged, false) /\ spawns s' x = [] /\
+            (running s = true -> In x (regids s') \/ In x (pids s') \/ done s' x)
 }.
 
 Lemma Forall2_refl_or {A} (l : list (option A)) : Forall2 (fun a b => a = b \/ a = None) l l.
@@ -123,9 +136,7 @@ Proof. induction l; constructor; auto. Qed.
 Lemma Ext_refl s : Ext s s.
 Proof.
   constructor; auto; try tauto.
-  - apply incl_refl.
-  - apply Forall2_refl_or.
-  - intros x H0 H1. lia.
+  apply Forall2_refl_or.
 Qed.
 
 Lemma F2_trans {A} (l1 l2 l3 : list (option A)) :
@@ -150,14 +161,15 @@ Lemma Ext_trans s1 s2 s3 : Ext s1 s2 -> Ext s2 s3 -> Ext s1 s3.
 Proof.
   intros H1 H2. constructor.
   - rewrite (e_running _ _ H2). apply H1.
-  - rewrite (e_info _ _ H2). apply H1.
-  - rewrite (e_ids _ _ H2). apply H1.
+  - intros x Hx. rewrite (e_info _ _ H2 x); [apply (e_info _ _ H1 x Hx)|]. rewrite (e_info _ _ H1 x Hx). exact Hx.
   - rewrite (e_torn _ _ H2). apply H1.
-  - rewrite (e_bad _ _ H2). apply H1.
   - rewrite (e_oof _ _ H2). apply H1.
   - intros x. pose proof (e_fin _ _ H1 x). pose proof (e_fin _ _ H2 x). lia.
   - intros x. pose proof (e_free _ _ H1 x). pose proof (e_free _ _ H2 x). lia.
-  - eapply incl_tran; [apply H2 | apply H1].
+  - intros e He. destruct (e_reg _ _ H2 e He) as [Hin|[Hn Hf]].
+    + apply (e_reg _ _ H1 e Hin).
+    + right. split; [|exact Hf]. destruct (info s1 (fst e)) eqn:Hi; [|reflexivity].
+      rewrite <- Hn. symmetry. rewrite <- Hi. apply (e_info _ _ H1). congruence.
   - eapply F2_trans; [apply H2 | apply H1].
   - intros x Hin Hnot.
     destruct (in_dec Nat.eq_dec x (regids s2)) as [Hi|Hn].
@@ -168,24 +180,44 @@ Proof.
     + apply (e_penddone _ _ H2); assumption.
     + apply (e_done _ _ H2). apply (e_penddone _ _ H1); assumption.
   - intros x Hd. apply (e_done _ _ H2), (e_done _ _ H1), Hd.
-  - pose proof (e_meas _ _ H1). pose proof (e_meas _ _ H2). lia.
-  - intros x H0 H3. destruct (Nat.eq_dec (fin_count s2 x) 0) as [Hz|Hnz].
-    + rewrite <- (e_info _ _ H1). apply (e_src _ _ H2 x Hz H3).
-    + apply (e_src _ _ H1 x H0). lia.
   - intros y Hy. rewrite (e_owned _ _ H2 y Hy). apply (e_owned _ _ H1).
     pose proof (e_fin _ _ H2 y). lia.
+  - intros x Hx. rewrite (e_spawns _ _ H2 x); [apply (e_spawns _ _ H1 x Hx)|]. rewrite (e_info _ _ H1 x Hx). exact Hx.
+  - intros y Hy Hf. rewrite (e_prog_owned _ _ H2 y); [apply (e_prog_owned _ _ H1 y Hy)| |exact Hf].
+    + pose proof (e_free _ _ H2 y). lia.
+    + pose proof (e_fin _ _ H1 y). lia.
+  - intros x Hn Hs.
+    assert (Hrun2 : running s2 = running s1) by apply H1.
+    destruct (info s2 x) eqn:Hi2.
+    + (* allocated between s1 and s2 *)
+      assert (Hi2' : info s2 x <> None) by congruence.
+      destruct (e_new _ _ H1 x Hn Hi2') as (Ha & Hb & Hc).
+      split; [rewrite (e_info _ _ H2 x Hi2'); exact Ha|].
+      split; [rewrite (e_spawns _ _ H2 x Hi2'); exact Hb|].
+      intros Hrun. destruct (Hc Hrun) as [Hr|[Hp|Hd]].
+      * destruct (in_dec Nat.eq_dec x (regids s3)) as [Hi|Hnn]; [left; exact Hi|].
+        right; right. apply (e_regdone _ _ H2); assumption.
+      * destruct (in_dec Nat.eq_dec x (pids s3)) as [Hi|Hnn]; [right; left; exact Hi|].
+        right; right. apply (e_penddone _ _ H2); assumption.
+      * right; right. apply (e_done _ _ H2). exact Hd.
+    + destruct (e_new _ _ H2 x Hi2 Hs) as (Ha & Hb & Hc).
+      split; [exact Ha|]. split; [exact Hb|]. intros Hrun. apply Hc. rewrite Hrun2. exact Hrun.
 Qed.
 
-Lemma Ext_regids s s' : Ext s s' -> incl (regids s') (regids s).
-Proof. intros H x Hx. unfold regids in *. apply in_map_iff in Hx. destruct Hx as [e [<- He]]. apply in_map. apply (e_reg _ _ H). exact He. Qed.
+Lemma Ext_regids s s' x : Ext s s' -> info s x <> None -> In x (regids s') -> In x (regids s).
+Proof.
+  intros H Hi Hx. unfold regids in *. apply in_map_iff in Hx. destruct Hx as [e [<- He]].
+  destruct (e_reg _ _ H e He) as [Hin|[Hn _]]; [apply in_map; exact Hin | contradiction].
+Qed.
 
 Lemma Ext_pids s s' : Ext s s' -> incl (pids s') (pids s).
 Proof. intros H. apply F2_somes_incl. apply H. Qed.
 
 (* ------------------------------------------------------------------ primitive steps *)
-Ltac ext_triv := first [ reflexivity | apply incl_refl | apply Forall2_refl_or
+Ltac ext_triv := first [ reflexivity | apply Forall2_refl_or
                        | (let H1 := fresh in let H2 := fresh in intros ? H1 H2; exfalso; apply H2; exact H1)
-                       | apply Nat.le_refl | (intros ? ?; assumption) | (intros ? ?; reflexivity) ].
+                       | (intros ? ?; assumption) | (intros ? ?; reflexivity)
+                       | (let H := fresh in intros ? H; left; exact H) ].
 
 Lemma ginv_done_mono A s s' x :
   GInv A s' -> ~ In x A -> fin_count s x <= fin_count s' x -> free_count s x <= free_count s' x ->
@@ -194,16 +226,81 @@ Proof.
   intros G Hn H1 H2 [Hd1 Hd2]. destruct (g_rest _ _ G x Hn) as [Ha Hb]. unfold done. lia.
 Qed.
 
+(* Ext between states that differ only in fields the relation does not look at, or in the ledger *)
+Lemma Ext_same s s' :
+  running s' = running s -> info s' = info s -> torn s' = torn s -> oof s' = oof s ->
+  reg s' = reg s -> pend s' = pend s -> owned s' = owned s -> spawns s' = spawns s ->
+  (forall x, fin_count s x <= fin_count s' x) -> (forall x, free_count s x <= free_count s' x) ->
+  (forall x, done s x -> done s' x) -> Ext s s'.
+Proof.
+  intros Hr Hi Ht Ho Hg Hp Hw Hs Hf Hfr Hd. constructor; auto.
+  - intros x _. rewrite Hi. reflexivity.
+  - intros e He. left. rewrite <- Hg. exact He.
+  - rewrite Hp. apply Forall2_refl_or.
+  - intros x H1 H2. exfalso. apply H2. unfold regids. rewrite Hg. exact H1.
+  - intros x H1 H2. exfalso. apply H2. unfold pids. rewrite Hp. exact H1.
+  - intros y _. rewrite Hw. reflexivity.
+  - intros x _. rewrite Hs. reflexivity.
+  - intros y _ _. rewrite Hw. reflexivity.
+  - intros x Hn Hs'. exfalso. apply Hs'. rewrite Hi. exact Hn.
+Qed.
+
+Lemma phi_add_free s o : phi (add_log (LFree o) s) = phi s.
+Proof. reflexivity. Qed.
+
+Lemma fin_started_spec s x : fin_started s x = false <-> fin_count s x = 0.
+Proof.
+  unfold fin_started, fin_count. split.
+  - apply count_zero_pre.
+  - intros H. destruct (existsb (lev_eqb (LFin x)) (log s)) eqn:E; [|reflexivity].
+    exfalso. apply existsb_exists in E. destruct E as [e [Hin He]].
+    unfold count in H. assert (Hi : In e (filter (lev_eqb (LFin x)) (log s))) by (apply filter_In; auto).
+    destruct (filter (lev_eqb (LFin x)) (log s)); [contradiction | discriminate].
+Qed.
+
+Definition weight (s : st) (x : id) : nat := if fin_started s x then 0 else S (length (spawns s x)).
+
+Lemma phi_unfold s : phi s = list_sum (map (weight s) (ids s)).
+Proof. reflexivity. Qed.
+
+Lemma list_sum_map_ext {A} (f g : A -> nat) l : (forall x, In x l -> f x = g x) -> list_sum (map f l) = list_sum (map g l).
+Proof.
+  induction l as [|a l IH]; simpl; [reflexivity|]. intros H.
+  rewrite (H a (or_introl eq_refl)). f_equal. apply IH. intros x Hx. apply H. right. exact Hx.
+Qed.
+
+(* logging the destructor call of o takes o's weight out of the potential *)
+Lemma phi_add_fin s o :
+  NoDup (ids s) -> In o (ids s) -> fin_count s o = 0 ->
+  phi (add_log (LFin o) s) + S (length (spawns s o)) = phi s.
+Proof.
+  intros Hnd Hin H0. rewrite !phi_unfold. change (ids (add_log (LFin o) s)) with (ids s).
+  apply fin_started_spec in H0.
+  assert (Hw : forall x, weight (add_log (LFin o) s) x = if x =? o then 0 else weight s x).
+  { intros x. unfold weight, fin_started. simpl log. simpl existsb.
+    change (spawns (add_log (LFin o) s) x) with (spawns s x).
+    destruct (Nat.eqb_spec x o) as [->|Hne]; simpl; [reflexivity|]. reflexivity. }
+  induction (ids s) as [|a l IH]; [destruct Hin|].
+  inversion Hnd as [|? ? Hna Hnd']; subst. simpl. rewrite Hw.
+  destruct Hin as [->|Hin].
+  - rewrite Nat.eqb_refl. unfold weight at 2. rewrite H0.
+    rewrite (list_sum_map_ext (weight (add_log (LFin o) s)) (weight s) l).
+    + lia.
+    + intros x Hx. rewrite Hw. destruct (Nat.eqb_spec x o) as [->|]; [contradiction | reflexivity].
+  - destruct (Nat.eqb_spec a o) as [->|Hne]; [contradiction|]. specialize (IH Hnd' Hin). lia.
+Qed.
+
 (* logging the destructor call of o *)
 Lemma add_fin_ok A s o :
   GInv A s -> ~ In o (regids s) -> ~ In o (pids s) -> fin_count s o = 0 -> info s o <> None ->
-  GInv (o :: A) (add_log (LFin o) s) /\ Ext s (add_log (LFin o) s).
+  GInv (o :: A) (add_log (LFin o) s) /\ Ext s (add_log (LFin o) s) /\
+  measure (add_log (LFin o) s) + S (length (spawns s o)) = measure s.
 Proof.
   intros G Hr Hp Hf Hinfo.
   assert (HoA : ~ In o A). { intros HA. destruct (g_prog _ _ G o HA). lia. }
   assert (Hfree : free_count s o = 0). { destruct (g_rest _ _ G o HoA). lia. }
-  split.
-  - constructor; [apply G | apply G | apply G | | | | apply G].
+  split; [|split].
+  - constructor; [apply G | apply G | apply G | | | | apply G | | apply G | apply G | apply G].
     + intros x Hx. rewrite fin_add_fin. destruct (Nat.eqb_spec x o) as [->|Hne].
       * destruct Hx; contradiction.
       * simpl. apply (g_fresh _ _ G). exact Hx.
@@ -214,24 +311,24 @@ Proof.
     + intros x Hx. rewrite fin_add_fin, free_add_fin.
       destruct (Nat.eqb_spec x o) as [->|Hne]; [exfalso; apply Hx; left; reflexivity|].
       simpl. apply (g_rest _ _ G). intros HA. apply Hx. right. exact HA.
-  - constructor; try ext_triv; try (intros x; rewrite ?fin_add_fin, ?free_add_fin; lia).
-    + intros x [Hd1 Hd2]. unfold done. rewrite fin_add_fin, free_add_fin.
-      destruct (Nat.eqb_spec x o) as [->|Hne]; [lia | simpl; auto].
-    + intros x H0. rewrite fin_add_fin. destruct (Nat.eqb_spec x o) as [->|Hne]; [intros _; exact Hinfo | simpl; lia].
+    + intros x Hx. rewrite fin_add_fin. destruct (Nat.eqb_spec x o) as [->|Hne]; [contradiction|].
+      simpl. apply (g_alloc _ _ G). exact Hx.
+  - apply Ext_same; try reflexivity; try (intros x; rewrite ?fin_add_fin, ?free_add_fin; lia).
+    intros x [Hd1 Hd2]. unfold done. rewrite fin_add_fin, free_add_fin.
+    destruct (Nat.eqb_spec x o) as [->|Hne]; [lia | simpl; auto].
+  - unfold measure. apply phi_add_fin; [apply G | apply (g_ids _ _ G); exact Hinfo | exact Hf].
 Qed.
 
 (* logging the release of o's memory *)
 Lemma add_free_ok A s o :
   GInv (o :: A) s -> ~ In o A -> ~ In o (regids s) -> ~ In o (pids s) ->
-  GInv A (add_log (LFree o) s) /\ Ext s (add_log (LFree o) s) /\ done (add_log (LFree o) s) o.
+  GInv A (add_log (LFree o) s) /\ Ext s (add_log (LFree o) s) /\ done (add_log (LFree o) s) o /\
+  measure (add_log (LFree o) s) = measure s.
 Proof.
   intros G HoA Hr Hp.
   destruct (g_prog _ _ G o (or_introl eq_refl)) as [Hf1 Hf0].
-  split; [|split].
-  - constructor.
-    + apply G.
-    + apply G.
-    + apply G.
+  split; [|split; [|split; [|reflexivity]]].
+  - constructor; [apply G | apply G | apply G | | | | apply G | | apply G | apply G | apply G].
     + intros x Hx. rewrite fin_add_free. apply (g_fresh _ _ G). exact Hx.
     + intros x Hx. rewrite fin_add_free, free_add_free.
       destruct (Nat.eqb_spec x o) as [->|Hne]; [contradiction|]. simpl.
@@ -239,31 +336,48 @@ Proof.
     + intros x Hx. rewrite fin_add_free, free_add_free.
       destruct (Nat.eqb_spec x o) as [->|Hne]; [lia|]. simpl.
       apply (g_rest _ _ G). intros [<-|HA]; [congruence | contradiction].
-    + apply G.
-  - constructor; try ext_triv; try (intros x; rewrite ?fin_add_free, ?free_add_free; lia).
+    + intros x Hx. rewrite fin_add_free. apply (g_alloc _ _ G). exact Hx.
+  - apply Ext_same; try reflexivity; try (intros x; rewrite ?fin_add_free, ?free_add_free; lia).
     intros x [Hd1 Hd2]. unfold done. rewrite fin_add_free, free_add_free.
-      destruct (Nat.eqb_spec x o) as [->|Hne]; [lia | simpl; auto].
+    destruct (Nat.eqb_spec x o) as [->|Hne]; [lia | simpl; auto].
   - unfold done. rewrite fin_add_free, free_add_free, Nat.eqb_refl. lia.
 Qed.
 
 (* fields the invariant does not look at *)
-Lemma set_mitems_ok A s m : GInv A s -> GInv A (set_mitems m s) /\ Ext s (set_mitems m s).
+Lemma set_mitems_ok A s m : GInv A s -> GInv A (set_mitems m s) /\ Ext s (set_mitems m s) /\ measure (set_mitems m s) = measure s.
 Proof.
-  intros G. split; [constructor; apply G|].
-  constructor; try ext_triv; try (intros x; apply Nat.le_refl).
-  intros x H0 H1; change (0 < fin_count s x) in H1; lia.
+  intros G. split; [constructor; apply G|]. split; [|reflexivity].
+  apply Ext_same; try reflexivity; auto.
 Qed.
 
-(* a destructor clears the pointer of its own (already finalised) Box *)
-Lemma set_owned_ok A s o v :
-  GInv A s -> 0 < fin_count s o ->
-  GInv A (set_owned (upd_owned (owned s) o v) s) /\ Ext s (set_owned (upd_owned (owned s) o v) s).
+(* the end of o's destructor: its Box pointer is cleared, its memory released *)
+Lemma finish_ok A s o :
+  GInv (o :: A) s -> ~ In o A -> ~ In o (regids s) -> ~ In o (pids s) ->
+  let s' := add_log (LFree o) (set_owned (upd_owned (owned s) o None) s) in
+  GInv A s' /\ Ext s s' /\ done s' o /\ measure s' = measure s.
 Proof.
-  intros G Hf. split; [constructor; apply G|].
-  constructor; try ext_triv; try (intros x; apply Nat.le_refl).
-  - intros x H0 H1; change (0 < fin_count s x) in H1; lia.
-  - intros y Hy. change (fin_count s y = 0) in Hy. cbn [owned set_owned]. unfold upd_owned.
-    destruct (Nat.eqb_spec y o) as [->|Hne]; [lia | reflexivity].
+  intros G HoA Hr Hp s'.
+  set (s0 := set_owned (upd_owned (owned s) o None) s).
+  assert (G0 : GInv (o :: A) s0) by (constructor; apply G).
+  destruct (add_free_ok A s0 o G0 HoA Hr Hp) as (G1 & E1 & D1 & M1).
+  destruct (g_prog _ _ G o (or_introl eq_refl)) as [Hf1 Hf0].
+  split; [exact G1|]. split; [|split; [exact D1 | exact M1]].
+  constructor.
+  - apply E1. - intros x Hx. apply (e_info _ _ E1 x Hx). - apply E1. - apply E1.
+  - intros x. apply (e_fin _ _ E1 x). - intros x. apply (e_free _ _ E1 x).
+  - intros e He. apply (e_reg _ _ E1 e He).
+  - apply (e_pend _ _ E1).
+  - intros x Hx Hn. apply (e_regdone _ _ E1 x Hx Hn).
+  - intros x Hx Hn. apply (e_penddone _ _ E1 x Hx Hn).
+  - intros x Hx. apply (e_done _ _ E1 x Hx).
+  - intros y Hy. change (fin_count s' y) with (fin_count (add_log (LFree o) s0) y) in Hy.
+    rewrite fin_add_free in Hy. change (fin_count s0 y) with (fin_count s y) in Hy.
+    change (owned s' y) with (upd_owned (owned s) o None y). unfold upd_owned. destruct (Nat.eqb_spec y o) as [->|Hne]; [lia | reflexivity].
+  - intros x Hx. apply (e_spawns _ _ E1 x Hx).
+  - intros y Hy Hf. change (owned s' y) with (upd_owned (owned s) o None y). unfold upd_owned.
+    destruct (Nat.eqb_spec y o) as [->|Hne]; [|reflexivity].
+    destruct D1 as [_ D1]. change (free_count s' o = 1) in D1. lia.
+  - intros x Hn Hs. exfalso. apply Hs. exact Hn.
 Qed.
 
 Lemma F2_null o l : Forall2 (fun a b => a = b \/ a = None) (null_pend o l) l.
@@ -273,7 +387,7 @@ Proof. unfold null_pend. induction l; simpl; constructor; auto. destruct (opt_is
 Lemma null_pend_ok A s o :
   GInv A s -> In o (pids s) ->
   let s' := set_pend (null_pend o (pend s)) s in
-  GInv A s' /\ ~ In o (regids s') /\ ~ In o (pids s') /\ fin_count s' o = 0 /\ measure s' < measure s /\
+  GInv A s' /\ ~ In o (regids s') /\ ~ In o (pids s') /\ fin_count s' o = 0 /\ measure s' = measure s /\
   running s' = running s /\ info s' = info s /\ ids s' = ids s /\ torn s' = torn s /\ bad s' = bad s /\ oof s' = oof s /\
   log s' = log s /\ reg s' = reg s /\ Forall2 (fun a b => a = b \/ a = None) (pend s') (pend s) /\
   (forall x, In x (pids s) -> x <> o -> In x (pids s')).
@@ -294,12 +408,12 @@ Proof.
     + apply G.
     + intros x [Hx|Hx]; [apply (g_info _ _ G); left; exact Hx|].
       rewrite Hp, filter_In in Hx. apply (g_info _ _ G). right. tauto.
+    + apply G.
+    + apply G.
+    + apply G.
+    + apply G.
   - intros Hr. apply (g_disj _ _ G o Hr Hin).
   - apply (g_fresh _ _ G). right. exact Hin.
-  - unfold measure, nitems. rewrite !live_pend_somes, Hp. change (reg s') with (reg s).
-    assert (length (filter (fun y => negb (y =? o)) (pids s)) < length (pids s)).
-    { apply filter_length_lt with (x := o); auto. rewrite Nat.eqb_refl. reflexivity. }
-    lia.
   - apply F2_null.
   - intros x Hx Hne. rewrite Hp, filter_In. split; auto.
     destruct (Nat.eqb_spec x o); [contradiction | reflexivity].
@@ -312,7 +426,7 @@ Proof. intros x Hx. apply filter_In in Hx. tauto. Qed.
 Lemma rem_reg_ok A s o :
   GInv A s -> In o (regids s) ->
   let s' := set_reg (rem_reg o (reg s)) s in
-  GInv A s' /\ ~ In o (regids s') /\ ~ In o (pids s') /\ fin_count s' o = 0 /\ measure s' < measure s /\
+  GInv A s' /\ ~ In o (regids s') /\ ~ In o (pids s') /\ fin_count s' o = 0 /\ measure s' = measure s /\
   running s' = running s /\ info s' = info s /\ ids s' = ids s /\ torn s' = torn s /\ bad s' = bad s /\ oof s' = oof s /\
   log s' = log s /\ pend s' = pend s /\ incl (reg s') (reg s) /\
   (forall x, In x (regids s) -> x <> o -> In x (regids s')).
@@ -333,16 +447,12 @@ Proof.
     + apply G.
     + intros x [Hx|Hx]; [|apply (g_info _ _ G); right; exact Hx].
       rewrite Hr, filter_In in Hx. apply (g_info _ _ G). left. tauto.
+    + apply G.
+    + apply G.
+    + apply G.
+    + apply G.
   - apply (g_disj _ _ G o Hin).
   - apply (g_fresh _ _ G). left. exact Hin.
-  - unfold measure, nitems. simpl reg. fold (regids s).
-    assert (Hl : length (rem_reg o (reg s)) = length (regids s')).
-    { unfold regids, s'. simpl. rewrite map_length. reflexivity. }
-    rewrite Hl, Hr.
-    assert (length (filter (fun y => negb (y =? o)) (regids s)) < length (regids s)).
-    { apply filter_length_lt with (x := o); auto. rewrite Nat.eqb_refl. reflexivity. }
-    unfold regids in H at 2. rewrite map_length in H.
-    assert (live_pend s' = live_pend s) by reflexivity. lia.
   - unfold s'. simpl. unfold rem_reg. apply incl_filter.
   - intros x Hx Hne. rewrite Hr, filter_In. split; auto.
     destruct (Nat.eqb_spec x o); [contradiction | reflexivity].
@@ -381,40 +491,40 @@ Qed.
 (* what a finaliser `fin` achieves on states of measure below n *)
 Definition FinOK (fin : st -> id -> st) (n : nat) : Prop :=
   forall A s o, GInv A s -> ~ In o (regids s) -> ~ In o (pids s) -> fin_count s o = 0 -> info s o <> None -> measure s < n ->
-    GInv A (fin s o) /\ Ext s (fin s o) /\ done (fin s o) o /\ Clo s (fin s o).
+    GInv A (fin s o) /\ Ext s (fin s o) /\ done (fin s o) o /\ Clo s (fin s o) /\ measure (fin s o) <= measure s.
 
 (* s1 = s with the entry of p taken out of the registry or out of the pending list; once p is
    done, everything that followed extends s itself *)
 Lemma Ext_from_removed s s1 s3 p :
-  running s1 = running s -> info s1 = info s -> ids s1 = ids s -> torn s1 = torn s -> bad s1 = bad s -> oof s1 = oof s ->
+  running s1 = running s -> info s1 = info s -> torn s1 = torn s -> oof s1 = oof s ->
   log s1 = log s -> incl (reg s1) (reg s) -> Forall2 (fun a b => a = b \/ a = None) (pend s1) (pend s) ->
   (forall x, In x (regids s) -> x <> p -> In x (regids s1)) ->
   (forall x, In x (pids s) -> x <> p -> In x (pids s1)) ->
-  measure s1 <= measure s -> owned s1 = owned s ->
+  owned s1 = owned s -> spawns s1 = spawns s ->
   Ext s1 s3 -> done s3 p -> Ext s s3.
 Proof.
-  intros Hr Hi Hd Ht Hb Ho Hl Hreg Hpend Kr Kp Hm Hown E Dn.
+  intros Hr Hi Ht Ho Hl Hreg Hpend Kr Kp Hown Hsp E Dn.
   assert (Hf : forall x, fin_count s1 x = fin_count s x) by (intros; unfold fin_count; congruence).
   assert (Hfr : forall x, free_count s1 x = free_count s x) by (intros; unfold free_count; congruence).
   constructor.
   - rewrite (e_running _ _ E); exact Hr.
-  - rewrite (e_info _ _ E); exact Hi.
-  - rewrite (e_ids _ _ E); exact Hd.
+  - intros x Hx. rewrite (e_info _ _ E x); rewrite Hi; [reflexivity | exact Hx].
   - rewrite (e_torn _ _ E); exact Ht.
-  - rewrite (e_bad _ _ E); exact Hb.
   - rewrite (e_oof _ _ E); exact Ho.
   - intros x. rewrite <- Hf. apply E.
   - intros x. rewrite <- Hfr. apply E.
-  - eapply incl_tran; [apply E | exact Hreg].
+  - intros e He. destruct (e_reg _ _ E e He) as [Hin|[Hn Hfl]]; [left; apply Hreg; exact Hin | right; rewrite <- Hi; auto].
   - eapply F2_trans; [apply E | exact Hpend].
   - intros x Hx Hnx. destruct (Nat.eq_dec x p) as [->|Hne]; [exact Dn|].
     apply (e_regdone _ _ E); auto.
   - intros x Hx Hnx. destruct (Nat.eq_dec x p) as [->|Hne]; [exact Dn|].
     apply (e_penddone _ _ E); auto.
   - intros x [H1 H2]. apply (e_done _ _ E). unfold done. rewrite Hf, Hfr. auto.
-  - pose proof (e_meas _ _ E). lia.
-  - intros x H0 H1. rewrite <- Hi. apply (e_src _ _ E x); [rewrite Hf; exact H0 | exact H1].
   - intros y Hy. rewrite (e_owned _ _ E y Hy). rewrite Hown. reflexivity.
+  - intros x Hx. rewrite (e_spawns _ _ E x); rewrite ?Hi, ?Hsp; [reflexivity | exact Hx].
+  - intros y Hy Hf0. rewrite (e_prog_owned _ _ E y); [rewrite Hown; reflexivity | rewrite Hf; exact Hy | exact Hf0].
+  - intros x Hn Hs. rewrite <- Hi in Hn. destruct (e_new _ _ E x Hn Hs) as (Ha & Hb & Hc).
+    split; [exact Ha|]. split; [exact Hb|]. intros Hrun. apply Hc. rewrite Hr. exact Hrun.
 Qed.
 
 Lemma Clo_from_removed s s1 s3 p0 :
@@ -434,108 +544,56 @@ Qed.
 
 (* GC_Rem (repaired) with a good finaliser *)
 Lemma gc_rem_ok fin n :
-  FinOK fin n -> forall A s p, GInv A s -> measure s <= n ->
+  FinOK fin n -> forall A s p, GInv A s -> measure s < n ->
     GInv A (gc_rem true fin s p) /\ Ext s (gc_rem true fin s p) /\
     (running s = true -> In p (regids s) \/ In p (pids s) -> done (gc_rem true fin s p) p) /\
-    Clo s (gc_rem true fin s p).
+    Clo s (gc_rem true fin s p) /\ measure (gc_rem true fin s p) <= measure s.
 Proof.
   intros HF A s p G Hm. unfold gc_rem.
   destruct (running s) eqn:Hrun; simpl negb; cbv iota.
-  2:{ split; [exact G|]. split; [apply Ext_refl|]. split; [discriminate | apply Clo_refl]. }
+  2:{ split; [exact G|]. split; [apply Ext_refl|]. split; [discriminate |]. split; [apply Clo_refl | lia]. }
   destruct (in_pend s p) eqn:Hp.
   - apply in_pend_spec in Hp.
     destruct (null_pend_ok A s p G Hp) as (G1 & N1 & N2 & F0 & M1 & R1 & I1 & D1 & T1 & B1 & O1 & L1 & Rg1 & P1 & K1).
     set (s1 := set_pend (null_pend p (pend s)) s) in *.
     assert (Hinf : info s1 p <> None) by (rewrite I1; apply (g_info _ _ G); right; exact Hp).
-    destruct (HF A s1 p G1 N1 N2 F0 Hinf ltac:(lia)) as (G2 & E2 & Dn & C2).
+    destruct (HF A s1 p G1 N1 N2 F0 Hinf ltac:(lia)) as (G2 & E2 & Dn & C2 & M2).
     set (s2 := fin s1 p) in *.
-    destruct (set_mitems_ok A s2 (mitems_rule (nitems s2)) G2) as (G3 & E3).
+    destruct (set_mitems_ok A s2 (mitems_rule (nitems s2)) G2) as (G3 & E3 & M3).
     assert (C23 : Clo s1 (set_mitems (mitems_rule (nitems s2)) s2)).
     { eapply Clo_trans; [exact E2 | exact E3 | exact C2 | apply Clo_same_log; reflexivity]. }
     assert (Kr0 : forall x, In x (regids s) -> x <> p -> In x (regids s1)).
     { intros x Hx _. unfold regids. rewrite Rg1. exact Hx. }
-    split; [exact G3|]. split; [|split; [intros _ _; apply (e_done _ _ E3); exact Dn|
-      exact (Clo_from_removed s s1 _ p R1 L1 eq_refl Kr0 K1 C23 (e_done _ _ E3 _ Dn))]].
-    + assert (Hreg : incl (reg s1) (reg s)) by (rewrite Rg1; apply incl_refl).
-      assert (Kr : forall x, In x (regids s) -> x <> p -> In x (regids s1)).
-      { intros x Hx _. unfold regids. rewrite Rg1. exact Hx. }
-      assert (Hm' : measure s1 <= measure s) by lia.
-      assert (E23 : Ext s1 (set_mitems (mitems_rule (nitems s2)) s2)) by (eapply Ext_trans; [exact E2 | exact E3]).
-      exact (Ext_from_removed s s1 _ p R1 I1 D1 T1 B1 O1 L1 Hreg P1 Kr K1 Hm' eq_refl E23 (e_done _ _ E3 _ Dn)).
+    assert (Hreg : incl (reg s1) (reg s)) by (rewrite Rg1; apply incl_refl).
+    assert (E23 : Ext s1 (set_mitems (mitems_rule (nitems s2)) s2)) by (eapply Ext_trans; [exact E2 | exact E3]).
+    split; [exact G3|]. split; [|split; [intros _ _; apply (e_done _ _ E3); exact Dn| split;
+      [exact (Clo_from_removed s s1 _ p R1 L1 eq_refl Kr0 K1 C23 (e_done _ _ E3 _ Dn)) | lia]]].
+    exact (Ext_from_removed s s1 _ p R1 I1 T1 O1 L1 Hreg P1 Kr0 K1 eq_refl eq_refl E23 (e_done _ _ E3 _ Dn)).
   - destruct (in_reg s p) eqn:Hr.
     + apply in_reg_spec in Hr.
       destruct (rem_reg_ok A s p G Hr) as (G1 & N1 & N2 & F0 & M1 & R1 & I1 & D1 & T1 & B1 & O1 & L1 & Pd1 & Rg1 & K1).
       set (s1 := set_reg (rem_reg p (reg s)) s) in *.
       assert (Hinf : info s1 p <> None) by (rewrite I1; apply (g_info _ _ G); left; exact Hr).
-      destruct (HF A s1 p G1 N1 N2 F0 Hinf ltac:(lia)) as (G2 & E2 & Dn & C2).
+      destruct (HF A s1 p G1 N1 N2 F0 Hinf ltac:(lia)) as (G2 & E2 & Dn & C2 & M2).
       set (s2 := fin s1 p) in *.
-      destruct (set_mitems_ok A s2 (mitems_rule (nitems s2)) G2) as (G3 & E3).
+      destruct (set_mitems_ok A s2 (mitems_rule (nitems s2)) G2) as (G3 & E3 & M3).
       assert (C23 : Clo s1 (set_mitems (mitems_rule (nitems s2)) s2)).
       { eapply Clo_trans; [exact E2 | exact E3 | exact C2 | apply Clo_same_log; reflexivity]. }
       assert (Kp0 : forall x, In x (pids s) -> x <> p -> In x (pids s1)).
       { intros x Hx _. unfold pids. rewrite Pd1. exact Hx. }
-      split; [exact G3|]. split; [|split; [intros _ _; apply (e_done _ _ E3); exact Dn|
-        exact (Clo_from_removed s s1 _ p R1 L1 eq_refl K1 Kp0 C23 (e_done _ _ E3 _ Dn))]].
-      * assert (Hpend : Forall2 (fun a b => a = b \/ a = None) (pend s1) (pend s)) by (rewrite Pd1; apply Forall2_refl_or).
-        assert (Kp : forall x, In x (pids s) -> x <> p -> In x (pids s1)).
-        { intros x Hx _. unfold pids. rewrite Pd1. exact Hx. }
-        assert (Hm' : measure s1 <= measure s) by lia.
-        assert (E23 : Ext s1 (set_mitems (mitems_rule (nitems s2)) s2)) by (eapply Ext_trans; [exact E2 | exact E3]).
-        exact (Ext_from_removed s s1 _ p R1 I1 D1 T1 B1 O1 L1 Rg1 Hpend K1 Kp Hm' eq_refl E23 (e_done _ _ E3 _ Dn)).
-    + destruct (set_mitems_ok A s (mitems_rule (nitems s)) G) as (G3 & E3).
-      split; [exact G3|]. split; [exact E3|]. split; [|apply Clo_same_log; reflexivity].
+      assert (Hpend : Forall2 (fun a b => a = b \/ a = None) (pend s1) (pend s)) by (rewrite Pd1; apply Forall2_refl_or).
+      assert (E23 : Ext s1 (set_mitems (mitems_rule (nitems s2)) s2)) by (eapply Ext_trans; [exact E2 | exact E3]).
+      split; [exact G3|]. split; [|split; [intros _ _; apply (e_done _ _ E3); exact Dn| split;
+        [exact (Clo_from_removed s s1 _ p R1 L1 eq_refl K1 Kp0 C23 (e_done _ _ E3 _ Dn)) | lia]]].
+      exact (Ext_from_removed s s1 _ p R1 I1 T1 O1 L1 Rg1 Hpend K1 Kp0 eq_refl eq_refl E23 (e_done _ _ E3 _ Dn)).
+    + destruct (set_mitems_ok A s (mitems_rule (nitems s)) G) as (G3 & E3 & M3).
+      split; [exact G3|]. split; [exact E3|]. split; [|split; [apply Clo_same_log; reflexivity | lia]].
       intros _ [H|H].
       * apply in_reg_spec in H. congruence.
       * apply in_pend_spec in H. congruence.
 Qed.
 
-(* dealloc(destruct(o)) with enough fuel *)
-Lemma finalise_ok f : FinOK (finalise true f) f.
-Proof.
-  induction f as [|f IH]; intros A s o G Hr Hp Hf Hinfo Hm; [lia|].
-  assert (HoA : ~ In o A). { intros HA. destruct (g_prog _ _ G o HA). lia. }
-  cbn [finalise].
-  destruct (add_fin_ok A s o G Hr Hp Hf Hinfo) as (G1 & E1).
-  set (s1 := add_log (LFin o) s) in *.
-  assert (Hm1 : measure s1 <= f) by (pose proof (e_meas _ _ E1); lia).
-  assert (Hr1 : ~ In o (regids s1)) by exact Hr.
-  assert (Hp1 : ~ In o (pids s1)) by exact Hp.
-  assert (Hfin1 : forall y, y <> o -> fin_count s1 y = fin_count s y).
-  { intros y Hne. unfold s1. rewrite fin_add_fin. destruct (Nat.eqb_spec y o); [contradiction | reflexivity]. }
-  change (owned s1 o) with (owned s o).
-  destruct (owned s o) as [p|] eqn:Hown.
-  - destruct (gc_rem_ok _ _ IH (o :: A) s1 p G1 Hm1) as (G2 & E2 & D2 & C2).
-    set (s2 := gc_rem true (finalise true f) s1 p) in *.
-    assert (Hfo2 : 0 < fin_count s2 o) by (destruct (g_prog _ _ G2 o (or_introl eq_refl)); lia).
-    destruct (set_owned_ok (o :: A) s2 o None G2 Hfo2) as (G3 & E3).
-    set (s3 := set_owned (upd_owned (owned s2) o None) s2) in *.
-    assert (E13 : Ext s1 s3) by (eapply Ext_trans; eassumption).
-    assert (Hr3 : ~ In o (regids s3)) by (intros H; apply Hr1; apply (Ext_regids _ _ E13); exact H).
-    assert (Hp3 : ~ In o (pids s3)) by (intros H; apply Hp1; apply (Ext_pids _ _ E13); exact H).
-    destruct (add_free_ok A s3 o G3 HoA Hr3 Hp3) as (G4 & E4 & Dn).
-    set (s4 := add_log (LFree o) s3) in *.
-    assert (E34 : Ext s2 s4) by (eapply Ext_trans; eassumption).
-    split; [exact G4|]. split; [|split; [exact Dn|]].
-    + eapply Ext_trans; [exact E1|]. eapply Ext_trans; [exact E13 | exact E4].
-    + intros Hrun y q H0 H4 Hoy Hin.
-      destruct (Nat.eq_dec y o) as [->|Hne].
-      * assert (q = p) by congruence. subst q.
-        apply (e_done _ _ E34). apply D2; [exact Hrun | exact Hin].
-      * apply (e_done _ _ E34).
-        apply (C2 Hrun y q).
-        -- rewrite (Hfin1 y Hne). exact H0.
-        -- assert (fin_count s4 y = fin_count s2 y) by (unfold s4, s3; rewrite fin_add_free; reflexivity). lia.
-        -- exact Hoy.
-        -- exact Hin.
-  - destruct (add_free_ok A s1 o G1 HoA Hr1 Hp1) as (G4 & E4 & Dn).
-    split; [exact G4|]. split; [|split; [exact Dn|]].
-    + eapply Ext_trans; [exact E1 | exact E4].
-    + intros Hrun y q H0 H4 Hoy Hin.
-      destruct (Nat.eq_dec y o) as [->|Hne]; [congruence|].
-      rewrite fin_add_free in H4. rewrite (Hfin1 y Hne) in H4. lia.
-Qed.
-
-(* ------------------------------------------------------------------ the sweep *)
+(* ------------------------------------------------------------------ the sweep (for any good finaliser) *)
 Lemma F2_length {A} (l1 l2 : list (option A)) :
   Forall2 (fun a b => a = b \/ a = None) l1 l2 -> length l1 = length l2.
 Proof. induction 1; simpl; auto. Qed.
@@ -575,44 +633,41 @@ Qed.
 Lemma null_pend_length o l : length (null_pend o l) = length l.
 Proof. unfold null_pend. apply map_length. Qed.
 
-Lemma sweep_loop_ok k : forall i s,
-  GInv [] s -> (forall j, j < i -> nth j (pend s) None = None) -> i + k = length (pend s) ->
-  let s' := sweep_loop true true k i s in
-  GInv [] s' /\ Ext s s' /\ pids s' = [] /\ Clo s s'.
+Lemma sweep_loop_ok fin n : FinOK fin n -> forall k i A s,
+  GInv A s -> measure s < n -> (forall j, j < i -> nth j (pend s) None = None) -> i + k = length (pend s) ->
+  let s' := sweep_loop true fin k i s in
+  GInv A s' /\ Ext s s' /\ pids s' = [] /\ Clo s s' /\ measure s' <= measure s.
 Proof.
-  induction k as [|k IH]; intros i s G Hnone Hlen; cbn [sweep_loop].
-  - split; [exact G|]. split; [apply Ext_refl|]. split; [|apply Clo_refl].
+  intros HF. induction k as [|k IH]; intros i A s G Hm Hnone Hlen; cbn [sweep_loop].
+  - split; [exact G|]. split; [apply Ext_refl|]. split; [|split; [apply Clo_refl | lia]].
     apply all_none_somes. intros j Hj. apply Hnone. lia.
   - destruct (nth i (pend s) None) as [o|] eqn:Hnth.
     + assert (Hin : In o (pids s)) by (eapply nth_in_somes; exact Hnth).
-      destruct (null_pend_ok [] s o G Hin) as (G1 & N1 & N2 & F0 & M1 & R1 & I1 & D1 & T1 & B1 & O1 & L1 & Rg1 & P1 & K1).
+      destruct (null_pend_ok A s o G Hin) as (G1 & N1 & N2 & F0 & M1 & R1 & I1 & D1 & T1 & B1 & O1 & L1 & Rg1 & P1 & K1).
       set (s1 := set_pend (null_pend o (pend s)) s) in *.
       assert (Hinf : info s1 o <> None) by (rewrite I1; apply (g_info _ _ G); right; exact Hin).
-      destruct (finalise_ok (fuel_of s1) [] s1 o G1 N1 N2 F0 Hinf ltac:(unfold fuel_of, measure; lia)) as (G2 & E2 & Dn & C2).
-      set (s2 := finalise true (fuel_of s1) s1 o) in *.
-      assert (E : Ext s s2).
-      { assert (Hreg : incl (reg s1) (reg s)) by (rewrite Rg1; apply incl_refl).
-        assert (Kr : forall x, In x (regids s) -> x <> o -> In x (regids s1)).
-        { intros x Hx _. unfold regids. rewrite Rg1. exact Hx. }
-        assert (Hm' : measure s1 <= measure s) by lia.
-        exact (Ext_from_removed s s1 _ o R1 I1 D1 T1 B1 O1 L1 Hreg P1 Kr K1 Hm' eq_refl E2 Dn). }
-      assert (C : Clo s s2).
-      { assert (Kr : forall x, In x (regids s) -> x <> o -> In x (regids s1)).
-        { intros x Hx _. unfold regids. rewrite Rg1. exact Hx. }
-        exact (Clo_from_removed s s1 _ o R1 L1 eq_refl Kr K1 C2 Dn). }
+      destruct (HF A s1 o G1 N1 N2 F0 Hinf ltac:(lia)) as (G2 & E2 & Dn & C2 & M2).
+      set (s2 := fin s1 o) in *.
+      assert (Kr : forall x, In x (regids s) -> x <> o -> In x (regids s1)).
+      { intros x Hx _. unfold regids. rewrite Rg1. exact Hx. }
+      assert (Hreg : incl (reg s1) (reg s)) by (rewrite Rg1; apply incl_refl).
+      assert (E : Ext s s2) by exact (Ext_from_removed s s1 _ o R1 I1 T1 O1 L1 Hreg P1 Kr K1 eq_refl eq_refl E2 Dn).
+      assert (C : Clo s s2) by exact (Clo_from_removed s s1 _ o R1 L1 eq_refl Kr K1 C2 Dn).
       assert (Hl2 : length (pend s2) = length (pend s)) by (apply F2_length, E).
-      destruct (IH (S i) s2 G2) as (G3 & E3 & P3 & C3).
+      destruct (IH (S i) A s2 G2) as (G3 & E3 & P3 & C3 & M3).
+      * lia.
       * intros j Hj. apply (F2_nth_none _ _ _ (e_pend _ _ E2)).
         destruct (Nat.eq_dec j i) as [->|Hne].
         -- apply nth_null_none. exact Hnth.
         -- apply (F2_nth_none _ _ _ P1). apply Hnone. lia.
       * lia.
       * split; [exact G3|]. split; [eapply Ext_trans; eassumption |]. split; [exact P3|].
-        eapply Clo_trans; eassumption.
-    + destruct (IH (S i) s G) as (G3 & E3 & P3 & C3).
+        split; [eapply Clo_trans; eassumption | lia].
+    + destruct (IH (S i) A s G) as (G3 & E3 & P3 & C3 & M3).
+      * exact Hm.
       * intros j Hj. destruct (Nat.eq_dec j i) as [->|Hne]; [exact Hnth | apply Hnone; lia].
       * lia.
-      * split; [exact G3|]. split; [exact E3 |]. split; [exact P3 | exact C3].
+      * split; [exact G3|]. split; [exact E3 |]. split; [exact P3 |]. split; [exact C3 | exact M3].
 Qed.
 
 Lemma NoDup_app_intro {A} (l1 l2 : list A) :
@@ -659,15 +714,16 @@ Proof. unfold somes. induction l; simpl; auto. rewrite IHl. reflexivity. Qed.
 Definition dead_of (order marks : list id) (s : st) : list id :=
   filter (fun o => negb (is_root s o) && negb (existsb (Nat.eqb o) marks)) (arrange order s).
 
-(* GC_Sweep (repaired), between events: every unmarked non-root entry is finalised exactly once,
-   nothing else changes hands, and the pending list is empty again afterwards *)
-Lemma sweep_ok order marks s :
-  GInv [] s -> pend s = [] ->
-  let s' := sweep true true order marks s in
-  GInv [] s' /\ pend s' = [] /\ Ext s s' /\
-  (forall x, In x (regids s) -> is_root s x = false -> ~ In x marks -> done s' x) /\ Clo s s'.
+(* GC_Sweep (repaired) started outside any sweep: every unmarked non-root entry is finalised exactly
+   once, nothing else changes hands, and the pending list is empty again afterwards *)
+Lemma sweep_ok fin n : FinOK fin n -> forall order marks A s,
+  GInv A s -> pend s = [] -> measure s < n ->
+  let s' := sweep true fin order marks s in
+  GInv A s' /\ pend s' = [] /\ Ext s s' /\
+  (forall x, In x (regids s) -> is_root s x = false -> ~ In x marks -> done s' x) /\ Clo s s' /\
+  measure s' <= measure s.
 Proof.
-  intros G Hpe. unfold sweep. fold (dead_of order marks s).
+  intros HF order marks A s G Hpe Hm. unfold sweep. fold (dead_of order marks s).
   set (dead := dead_of order marks s).
   set (r' := filter (fun e => negb (existsb (Nat.eqb (fst e)) dead)) (reg s)).
   set (s1 := set_mitems (mitems_rule (length r')) (set_pend (map Some dead) (set_reg r' s))).
@@ -678,10 +734,9 @@ Proof.
   assert (Hr1 : regids s1 = filter (fun x => negb (existsb (Nat.eqb x) dead)) (regids s)).
   { unfold regids, s1, r'. simpl. apply (map_fst_filter (fun x => negb (existsb (Nat.eqb x) dead))). }
   assert (Hp1 : pids s1 = dead) by (unfold pids, s1; simpl; apply somes_map_Some).
-  assert (Hlog : log s1 = log s) by reflexivity.
   assert (Hf : forall x, fin_count s1 x = fin_count s x) by reflexivity.
   assert (Hfr : forall x, free_count s1 x = free_count s x) by reflexivity.
-  assert (G1 : GInv [] s1).
+  assert (G1 : GInv A s1).
   { constructor.
     - rewrite Hr1. apply NoDup_filter, G.
     - rewrite Hp1. exact Hdead_nd.
@@ -690,32 +745,36 @@ Proof.
     - intros x [Hx|Hx]; rewrite Hf; apply (g_fresh _ _ G); left.
       + rewrite Hr1, filter_In in Hx. tauto.
       + rewrite Hp1 in Hx. apply Hdead_in. exact Hx.
-    - intros x [].
+    - intros x Hx. rewrite Hf, Hfr. apply (g_prog _ _ G). exact Hx.
     - intros x Hx. rewrite Hf, Hfr. apply (g_rest _ _ G). exact Hx.
     - intros x [Hx|Hx]; apply (g_info _ _ G); left.
       + rewrite Hr1, filter_In in Hx. tauto.
-      + rewrite Hp1 in Hx. apply Hdead_in. exact Hx. }
-  destruct (sweep_loop_ok (length dead) 0 s1 G1) as (G2 & E2 & P2 & C2).
+      + rewrite Hp1 in Hx. apply Hdead_in. exact Hx.
+    - apply G. - apply G. - apply G. - apply G. }
+  destruct (sweep_loop_ok fin n HF (length dead) 0 A s1 G1) as (G2 & E2 & P2 & C2 & M2).
+  { exact Hm. }
   { intros j Hj. lia. }
   { unfold s1. simpl. rewrite map_length. reflexivity. }
-  set (s2 := sweep_loop true true (length dead) 0 s1) in *.
+  set (s2 := sweep_loop true fin (length dead) 0 s1) in *.
   assert (Hdone_dead : forall x, In x dead -> done s2 x).
   { intros x Hx. apply (e_penddone _ _ E2).
     - rewrite Hp1. exact Hx.
     - rewrite P2. intros []. }
-  assert (Hreg_incl : incl (reg s2) (reg s)).
-  { eapply incl_tran; [apply E2|]. unfold s1, r'. simpl. apply incl_filter. }
-  split; [|split; [reflexivity|split; [|split]]].
-  - constructor; try apply G2. 
+  split; [|split; [reflexivity|split; [|split; [|split]]]].
+  - constructor; try apply G2.
     + constructor.
     + intros x Hx [].
     + intros x [Hx|[]]. apply (g_fresh _ _ G2). left. exact Hx.
     + intros x [Hx|[]]. apply (g_info _ _ G2). left. exact Hx.
   - constructor.
-    + apply E2. + apply E2. + apply E2. + apply E2. + apply E2. + apply E2.
+    + apply E2.
+    + intros x Hx. apply (e_info _ _ E2 x Hx).
+    + apply E2.
+    + apply E2.
     + intros x. rewrite <- Hf. apply E2.
     + intros x. rewrite <- Hfr. apply E2.
-    + exact Hreg_incl.
+    + intros e He. destruct (e_reg _ _ E2 e He) as [Hin|Hnew]; [left | right; exact Hnew].
+      unfold s1, r' in Hin. simpl in Hin. apply filter_In in Hin. tauto.
     + rewrite Hpe. constructor.
     + intros x Hx Hnx. destruct (in_dec Nat.eq_dec x dead) as [Hd|Hnd]; [apply Hdone_dead; exact Hd|].
       apply (e_regdone _ _ E2); [|exact Hnx].
@@ -723,25 +782,233 @@ Proof.
       destruct (existsb (Nat.eqb x) dead) eqn:Ee; [apply existsb_eqb_in in Ee; contradiction | reflexivity].
     + unfold pids at 1. rewrite Hpe. intros x [].
     + intros x [Hd1 Hd2]. apply (e_done _ _ E2). unfold done. rewrite Hf, Hfr. auto.
-    + unfold measure, nitems. rewrite !live_pend_somes. unfold pids. simpl pend. rewrite Hpe. simpl.
-      assert (Hl : length (regids s2) <= length (regids s)).
-      { apply NoDup_incl_length; [apply G2|]. intros x Hx. unfold regids in *.
-        apply in_map_iff in Hx. destruct Hx as [e [<- He]]. apply in_map, Hreg_incl, He. }
-      unfold regids in Hl. rewrite !map_length in Hl. simpl reg. lia.
-    + intros x H0 H1. apply (e_src _ _ E2 x); [rewrite Hf; exact H0 | exact H1].
     + intros y Hy. apply (e_owned _ _ E2 y Hy).
-  - intros x Hx Hroot Hm. apply Hdone_dead. unfold dead, dead_of. rewrite filter_In. split.
+    + intros x Hx. apply (e_spawns _ _ E2 x Hx).
+    + intros y Hy Hf0. apply (e_prog_owned _ _ E2 y); [rewrite Hf; exact Hy | exact Hf0].
+    + intros x Hn Hs. destruct (e_new _ _ E2 x Hn Hs) as (Ha & Hb & Hc).
+      split; [exact Ha|]. split; [exact Hb|]. intros Hrun. destruct (Hc Hrun) as [Hr|[Hp|Hd]].
+      * left. exact Hr.
+      * rewrite P2 in Hp. destruct Hp.
+      * right; right. exact Hd.
+  - intros x Hx Hroot Hmk. apply Hdone_dead. unfold dead, dead_of. rewrite filter_In. split.
     + apply Hain. exact Hx.
     + rewrite Hroot. simpl. destruct (existsb (Nat.eqb x) marks) eqn:Ee; [apply existsb_eqb_in in Ee; contradiction | reflexivity].
-  - (* closure: the owned object was registered in s: it is dead (pending in s1) or still registered in s1 *)
-    intros Hrun y p H0 H3 Hoy Hin.
+  - intros Hrun y p H0 H3 Hoy Hin.
     destruct Hin as [Hin|Hin]; [|unfold pids in Hin; rewrite Hpe in Hin; destruct Hin].
     apply (C2 Hrun y p); [rewrite Hf; exact H0 | exact H3 | exact Hoy |].
     destruct (in_dec Nat.eq_dec p dead) as [Hd|Hnd].
     + right. rewrite Hp1. exact Hd.
     + left. rewrite Hr1, filter_In. split; [exact Hin|].
       destruct (existsb (Nat.eqb p) dead) eqn:Ee; [apply existsb_eqb_in in Ee; contradiction | reflexivity].
+  - exact M2.
 Qed.
+
+(* ------------------------------------------------------------------ allocation inside a destructor *)
+Notation finF := (finalise true true true).
+Notation childF := (alloc_child true true).
+
+Lemma phi_add_obj s c k b : fin_count s c = 0 -> phi (add_obj c k b s) = S (length (spawns s c)) + phi s.
+Proof.
+  intros H0. rewrite !phi_unfold. simpl ids. simpl map. simpl list_sum.
+  apply fin_started_spec in H0. unfold weight at 1. change (fin_started (add_obj c k b s) c) with (fin_started s c).
+  rewrite H0. reflexivity.
+Qed.
+
+Lemma add_obj_ginv A s c k b : GInv A s -> info s c = None -> GInv A (add_obj c k b s).
+Proof.
+  intros G Hn. set (s1 := add_obj c k b s).
+  assert (Hi : forall x, info s1 x = if x =? c then Some (k, b) else info s x) by reflexivity.
+  constructor; try apply G.
+  - intros x Hx. rewrite Hi. destruct (x =? c); [discriminate | apply (g_info _ _ G); exact Hx].
+  - intros x Hx. rewrite Hi in Hx. destruct (x =? c); [discriminate | apply (g_alloc _ _ G); exact Hx].
+  - simpl. constructor; [|apply G]. intros Hin. apply (g_ids _ _ G) in Hin. contradiction.
+  - intros x. rewrite Hi. simpl ids. destruct (Nat.eqb_spec x c) as [->|Hne].
+    + split; [discriminate | intros _; left; reflexivity].
+    + split; [intros [Hx|Hx]; [congruence | apply (g_ids _ _ G); exact Hx] | intros Hx; right; apply (g_ids _ _ G); exact Hx].
+  - intros x Hx. rewrite Hi in Hx. destruct (x =? c); [discriminate | apply (g_spawn _ _ G); exact Hx].
+Qed.
+
+Lemma register_ginv A s c (r : bool) :
+  GInv A s -> ~ In c (regids s) -> ~ In c (pids s) -> fin_count s c = 0 -> info s c <> None ->
+  GInv A (set_reg ((c, r) :: reg s) s).
+Proof.
+  intros G Hnr Hnp Hf Hi. constructor; try apply G.
+  - simpl. constructor; [exact Hnr | apply G].
+  - intros x [<-|Hx]; [exact Hnp | apply (g_disj _ _ G); exact Hx].
+  - intros x [[<-|Hx]|Hx]; [exact Hf | apply (g_fresh _ _ G); left; exact Hx | apply (g_fresh _ _ G); right; exact Hx].
+  - intros x [[<-|Hx]|Hx]; [exact Hi | apply (g_info _ _ G); left; exact Hx | apply (g_info _ _ G); right; exact Hx].
+Qed.
+
+(* the allocation part of GC_Set for a fresh managed plain object c *)
+Lemma child_reg_ext s c (s2 : st) :
+  info s c = None -> spawns s c = [] ->
+  running s2 = running s -> torn s2 = torn s -> oof s2 = oof s -> log s2 = log s -> pend s2 = pend s ->
+  owned s2 = owned s -> spawns s2 = spawns s ->
+  (forall x, info s2 x = if x =? c then Some (KManaged, false) else info s x) ->
+  (reg s2 = reg s /\ running s = false \/ reg s2 = (c, false) :: reg s) ->
+  Ext s s2 /\ Clo s s2.
+Proof.
+  intros Hn Hsp Hr Ht Ho Hl Hp Hw Hs Hi Hreg.
+  assert (Hf : forall x, fin_count s2 x = fin_count s x) by (intros; unfold fin_count; congruence).
+  assert (Hfr : forall x, free_count s2 x = free_count s x) by (intros; unfold free_count; congruence).
+  split; [|apply Clo_same_log; exact Hl].
+  constructor; auto.
+  - intros x Hx. rewrite Hi. destruct (Nat.eqb_spec x c) as [->|]; [contradiction | reflexivity].
+  - intros x. rewrite Hf. lia.
+  - intros x. rewrite Hfr. lia.
+  - intros e He. destruct Hreg as [[Hg _]|Hg]; rewrite Hg in He; [left; exact He|].
+    destruct He as [<-|He]; [right; auto | left; exact He].
+  - rewrite Hp. apply Forall2_refl_or.
+  - intros x Hx Hnx. exfalso. apply Hnx. unfold regids in *. destruct Hreg as [[Hg _]|Hg]; rewrite Hg; [exact Hx | right; exact Hx].
+  - intros x Hx Hnx. exfalso. apply Hnx. unfold pids. rewrite Hp. exact Hx.
+  - intros x [H1 H2]. unfold done. rewrite Hf, Hfr. auto.
+  - intros y _. rewrite Hw. reflexivity.
+  - intros x _. rewrite Hs. reflexivity.
+  - intros y _ _. rewrite Hw. reflexivity.
+  - intros x Hx Hx2. rewrite Hi in Hx2 |- *. rewrite Hs.
+    destruct (Nat.eqb_spec x c) as [->|Hne]; [|contradiction].
+    split; [reflexivity|]. split; [exact Hsp|]. intros Hrun.
+    destruct Hreg as [[_ Hg]|Hg]; [congruence|]. left. unfold regids. rewrite Hg. left. reflexivity.
+Qed.
+
+Lemma child_ok fin n : FinOK fin n -> forall A s c,
+  GInv A s -> S (measure s) < n ->
+  let s' := childF fin s c in
+  GInv A s' /\ Ext s s' /\ Clo s s' /\ measure s' <= S (measure s).
+Proof.
+  intros HF A s c G Hm. unfold alloc_child.
+  destruct (info s c) as [ib|] eqn:Hn.
+  { split; [constructor; apply G|]. split; [apply Ext_same; auto|]. split; [apply Clo_same_log; reflexivity | change (measure (set_bad s)) with (measure s); lia]. }
+  set (s1 := add_obj c KManaged false s).
+  pose proof (add_obj_ginv A s c KManaged false G Hn) as G1. fold s1 in G1.
+  assert (Hf0 : fin_count s c = 0) by (apply (g_alloc _ _ G); exact Hn).
+  assert (Hsp : spawns s c = []) by (apply (g_spawn _ _ G); exact Hn).
+  assert (Hm1 : measure s1 = S (measure s)).
+  { unfold measure, s1. rewrite (phi_add_obj s c KManaged false Hf0), Hsp. reflexivity. }
+  change (running s1) with (running s).
+  destruct (running s) eqn:Hrun; simpl negb; cbv iota.
+  2:{ destruct (child_reg_ext s c s1 Hn Hsp) as [E C]; try reflexivity; [left; split; [reflexivity | exact Hrun]|].
+      split; [exact G1|]. split; [exact E|]. split; [exact C | lia]. }
+  set (s2 := set_reg ((c, false) :: reg s1) s1).
+  assert (Hnr : ~ In c (regids s1)).
+  { intros Hin. apply (g_info _ _ G c (or_introl Hin)). exact Hn. }
+  assert (Hnp : ~ In c (pids s1)).
+  { intros Hin. apply (g_info _ _ G c (or_intror Hin)). exact Hn. }
+  assert (Hi1 : info s1 c <> None) by (unfold s1; simpl; rewrite Nat.eqb_refl; discriminate).
+  pose proof (register_ginv A s1 c false G1 Hnr Hnp Hf0 Hi1) as G2. fold s2 in G2.
+  destruct (child_reg_ext s c s2 Hn Hsp) as [E2 C2]; try reflexivity; [right; reflexivity|].
+  assert (Hm2 : measure s2 = S (measure s)) by exact Hm1.
+  simpl andb.
+  destruct (in_sweep s2) eqn:Hsw.
+  { split; [exact G2|]. split; [exact E2|]. split; [exact C2 | lia]. }
+  destruct (mitems s2 <? nitems s2).
+  2:{ split; [exact G2|]. split; [exact E2|]. split; [exact C2 | lia]. }
+  set (s3 := set_obsq (tl (obsq s2)) s2).
+  assert (G3 : GInv A s3) by (constructor; apply G2).
+  assert (Hpe3 : pend s3 = []).
+  { unfold in_sweep in Hsw. change (pend s3) with (pend s2). destruct (pend s2); [reflexivity | discriminate]. }
+  destruct (sweep_ok fin n HF (fst (hd ([], []) (obsq s2))) (c :: snd (hd ([], []) (obsq s2))) A s3 G3 Hpe3 ltac:(change (measure s3) with (measure s2); lia))
+    as (G4 & P4 & E4 & _ & C4 & M4).
+  assert (E23 : Ext s2 s3) by (apply Ext_same; auto).
+  split; [exact G4|]. split; [eapply Ext_trans; [exact E2|]; eapply Ext_trans; [exact E23 | exact E4]|].
+  split.
+  - eapply Clo_trans; [exact E2 | eapply Ext_trans; [exact E23 | exact E4] | exact C2 |].
+    eapply Clo_trans; [exact E23 | exact E4 | apply Clo_same_log; reflexivity | exact C4].
+  - change (measure s3) with (measure s2) in M4. lia.
+Qed.
+
+Lemma children_ok fin n : FinOK fin n -> forall cs A s,
+  GInv A s -> length cs + measure s < n ->
+  let s' := fold_left (childF fin) cs s in
+  GInv A s' /\ Ext s s' /\ Clo s s' /\ measure s' <= length cs + measure s.
+Proof.
+  intros HF. induction cs as [|c cs IH]; intros A s G Hm; simpl fold_left.
+  - split; [exact G|]. split; [apply Ext_refl|]. split; [apply Clo_refl | simpl; lia].
+  - simpl length in Hm.
+    destruct (child_ok fin n HF A s c G ltac:(lia)) as (G1 & E1 & C1 & M1).
+    destruct (IH A (childF fin s c) G1 ltac:(lia)) as (G2 & E2 & C2 & M2).
+    split; [exact G2|]. split; [eapply Ext_trans; eassumption|]. split; [eapply Clo_trans; eassumption | simpl length; lia].
+Qed.
+
+(* dealloc(destruct(o)) with enough fuel *)
+Lemma finalise_ok f : FinOK (finF f) f.
+Proof.
+  induction f as [|f IH]; intros A s o G Hr Hp Hf Hinfo Hm; [lia|].
+  assert (HoA : ~ In o A). { intros HA. destruct (g_prog _ _ G o HA). lia. }
+  cbn [finalise].
+  destruct (add_fin_ok A s o G Hr Hp Hf Hinfo) as (G1 & E1 & M1).
+  set (s1 := add_log (LFin o) s) in *.
+  assert (Hr1 : ~ In o (regids s1)) by exact Hr.
+  assert (Hp1 : ~ In o (pids s1)) by exact Hp.
+  assert (Hfin1 : forall y, y <> o -> fin_count s1 y = fin_count s y).
+  { intros y Hne. unfold s1. rewrite fin_add_fin. destruct (Nat.eqb_spec y o); [contradiction | reflexivity]. }
+  change (spawns s1 o) with (spawns s o).
+  destruct (children_ok _ _ IH (spawns s o) (o :: A) s1 G1 ltac:(lia)) as (G1a & E1a & C1a & M1a).
+  set (s1a := fold_left (childF (finF f)) (spawns s o) s1) in *.
+  assert (Hinfo1 : info s1 o <> None) by exact Hinfo.
+  assert (Hr1a : ~ In o (regids s1a)) by (intros H; apply Hr1; apply (Ext_regids _ _ o E1a Hinfo1 H)).
+  assert (Hp1a : ~ In o (pids s1a)) by (intros H; apply Hp1; apply (Ext_pids _ _ E1a); exact H).
+  assert (Hown1a : owned s1a o = owned s o).
+  { destruct (g_prog _ _ G1a o (or_introl eq_refl)) as [_ Hfr]. destruct (g_prog _ _ G1 o (or_introl eq_refl)) as [Hf1 _].
+    rewrite (e_prog_owned _ _ E1a o); [reflexivity | lia | exact Hfr]. }
+  rewrite Hown1a.
+  assert (Hm1a : measure s1a < f) by lia.
+  destruct (owned s o) as [p|] eqn:Hown.
+  - destruct (gc_rem_ok _ _ IH (o :: A) s1a p G1a Hm1a) as (G2 & E2 & D2 & C2 & M2).
+    set (s2 := gc_rem true (finF f) s1a p) in *.
+    assert (E12 : Ext s1 s2) by (eapply Ext_trans; eassumption).
+    assert (Hr2 : ~ In o (regids s2)) by (intros H; apply Hr1; apply (Ext_regids _ _ o E12 Hinfo1 H)).
+    assert (Hp2 : ~ In o (pids s2)) by (intros H; apply Hp1; apply (Ext_pids _ _ E12); exact H).
+    destruct (finish_ok A s2 o G2 HoA Hr2 Hp2) as (G4 & E4 & Dn & M4).
+    set (s4 := add_log (LFree o) (set_owned (upd_owned (owned s2) o None) s2)) in *.
+    split; [exact G4|]. split; [|split; [exact Dn|split]].
+    + eapply Ext_trans; [exact E1|]. eapply Ext_trans; [exact E12 | exact E4].
+    + intros Hrun y q H0 H4 Hoy Hin.
+      destruct (Nat.eq_dec y o) as [->|Hne].
+      * assert (q = p) by congruence. subst q.
+        apply (e_done _ _ E4).
+        assert (Hrun1a : running s1a = true) by (rewrite (e_running _ _ E1a); exact Hrun).
+        destruct Hin as [Hin|Hin].
+        -- destruct (in_dec Nat.eq_dec p (regids s1a)) as [Hi|Hni].
+           ++ apply D2; [exact Hrun1a | left; exact Hi].
+           ++ apply (e_done _ _ E2). apply (e_regdone _ _ E1a); assumption.
+        -- destruct (in_dec Nat.eq_dec p (pids s1a)) as [Hi|Hni].
+           ++ apply D2; [exact Hrun1a | right; exact Hi].
+           ++ apply (e_done _ _ E2). apply (e_penddone _ _ E1a); assumption.
+      * apply (e_done _ _ E4).
+        assert (C12 : Clo s1 s2) by exact (Clo_trans s1 s1a s2 E1a E2 C1a C2).
+        apply (C12 Hrun y q).
+        -- rewrite (Hfin1 y Hne). exact H0.
+        -- assert (fin_count s4 y = fin_count s2 y) by (unfold s4; rewrite fin_add_free; reflexivity). lia.
+        -- exact Hoy.
+        -- exact Hin.
+    + lia.
+  - destruct (finish_ok A s1a o G1a HoA Hr1a Hp1a) as (G4 & E4 & Dn & M4).
+    (* no owned object: the pointer update is the identity on the ledger *)
+    assert (Heq : forall t, fin_count (add_log (LFree o) (set_owned (upd_owned (owned s1a) o None) s1a)) t = fin_count (add_log (LFree o) s1a) t) by reflexivity.
+    assert (G4' : GInv A (add_log (LFree o) s1a)).
+    { destruct (add_free_ok A s1a o G1a HoA Hr1a Hp1a) as (G5 & _). exact G5. }
+    destruct (add_free_ok A s1a o G1a HoA Hr1a Hp1a) as (G5 & E5 & D5 & M5).
+    split; [exact G5|]. split; [|split; [exact D5|split]].
+    + eapply Ext_trans; [exact E1|]. eapply Ext_trans; [exact E1a | exact E5].
+    + intros Hrun y q H0 H4 Hoy Hin.
+      destruct (Nat.eq_dec y o) as [->|Hne]; [congruence|].
+      apply (e_done _ _ E5). apply (C1a Hrun y q).
+      * rewrite (Hfin1 y Hne). exact H0.
+      * rewrite fin_add_free in H4. exact H4.
+      * exact Hoy.
+      * exact Hin.
+    + lia.
+Qed.
+
+(* the finaliser the events use computes its fuel from the state: good at every bound *)
+Notation finT := (fin_top true true true).
+Lemma fin_top_ok n : FinOK finT n.
+Proof.
+  intros A s o G Hr Hp Hf Hi _. unfold fin_top.
+  apply (finalise_ok (fuel_of s) A s o G Hr Hp Hf Hi). unfold fuel_of, measure. lia.
+Qed.
+
 
 (* ------------------------------------------------------------------ whole histories *)
 Notation stepF := (step true true).
